@@ -1,13 +1,16 @@
 import Hive.Model.Ads
 import Hive.Model.AdsTrieLine
+import Hive.Model.AdsConc
 open Hive.Ads
 
-/-- Requests of the glue part (`open`, `set`, …) and of the trie part (`topen`, `tput`, …) are
-answered by their own models; a case uses one of the two. -/
+/-- Requests of the glue part (`open`, `set`, …), of the trie part (`topen`, `tput`, …) and the
+observations of the concurrent part (`qquiesce`, `qget`: judged by the trace predicates of
+`Hive/Model/AdsConc.lean`) are answered by their own models; a case uses one of the three. -/
 def stepBoth (s : Sess × SMT.TSess) (toks : List String) : (Sess × SMT.TSess) × String :=
   match toks with
   | verb :: _ =>
-    if verb.startsWith "t" then
+    if verb.startsWith "q" then (s, Conc.qstepLine toks)
+    else if verb.startsWith "t" then
       let (t', o) := SMT.tstepLine s.2 toks
       ((s.1, t'), o)
     else
